@@ -184,6 +184,8 @@ def cpsat_event(s, mode, rng, lb=0, ub=0, small=True, with_rules=True):
     def go():
         if mode == "timelimit":
             solver = ORToolsSolver(max_time_in_seconds=1e-9)
+        elif mode == "shortlimit":
+            solver = ORToolsSolver(max_time_in_seconds=1.0)
         else:
             solver = ORToolsSolver()
         if mode == "reused":
@@ -255,6 +257,12 @@ def c03():
         ub = int(bi.metadata.get("optimum") or bi.metadata.get("upper_bound") or 0)
         cpsat_event(s, "fresh", rng, lb=lb, ub=ub, small=False)
         cpsat_event(s, "reused", rng, lb=lb, ub=ub, small=False)
+        traces.append(s.trace())
+    # a hard instance under a short limit: the search stops with a feasible, not proven optimal, schedule
+    for k2, nm in enumerate(["la21"] + (["la27", "ta41"] if chk.tier == "thorough" else [])):
+        bi = load_benchmark_instance(nm)
+        s = dsession.DSession(len(insts) + len(names) + k2 + 1, model.instance_to_abstract(bi), [])
+        cpsat_event(s, "shortlimit", rng, lb=int(bi.metadata.get("lower_bound") or 0), ub=0, small=False, with_rules=False)
         traces.append(s.trace())
     chk.monitor(traces, source="cpsat-benchmarks")
     chk.assumptions.append("OR-Tools CP-SAT is a black box: only its results are judged")
